@@ -248,8 +248,8 @@ void CheckUninitVar::checkStruct(const Token *tok, const Variable &structvar)
                 bool innerunion = false;
                 for (const Scope *innerScope : scope2->nestedList) {
                     if (innerScope->type == ScopeType::eUnion) {
-                        if (var.typeStartToken()->linenr() >= innerScope->bodyStart->linenr() &&
-                            var.typeStartToken()->linenr() <= innerScope->bodyEnd->linenr()) {
+                        if (precedes(innerScope->bodyStart, var.typeStartToken()) &&
+                            precedes(var.typeStartToken(), innerScope->bodyEnd)) {
                             innerunion = true;
                             break;
                         }
